@@ -19,6 +19,7 @@ from vf import build, recs, tlc
 
 ANY = 170
 MAXREC = 1500
+NONTRIVIAL = 0
 TEMPLATES = {("UCH", 1): "tu", ("HEX", 1): "th1", ("HEX", 2): "th2", ("HEX", 3): "th3"}
 
 
@@ -88,6 +89,8 @@ def render_op(d, op):
 
 def render_cases(src_files, out_txt):
     n = nops = 0
+    global NONTRIVIAL
+    NONTRIVIAL = 0
     with open(out_txt, "w") as out:
         for sf in src_files:
             with open(sf) as f:
@@ -104,6 +107,8 @@ def render_cases(src_files, out_txt):
                     for op in c["ops"]:
                         out.write(render_op(c["def"], op) + "\n")
                         nops += 1
+                        if op[0] not in ("M", "T"):
+                            NONTRIVIAL += 1
                     out.write("E\n")
     return n, nops
 
@@ -201,9 +206,10 @@ def run(ctx):
     first = recs.read_ndjson(parts[0])[:2]
     ctx.coverage = {
         "states": states, "transitions": generated, "traces_validated_against_impl": ncase,
-        "evaluations": nops, "distinct_nontrivial": nops,
-        "rule": "one evaluation = one operation (prepareMaster, find, storeLastData, decodeLastData, clock step) executed on real "
-                "objects and checked by the TLC judge; traces are distinct TLC values; every trace builds/stores/decodes data",
+        "evaluations": nops, "distinct_nontrivial": NONTRIVIAL,
+        "rule": "one evaluation = one operation executed on real objects and checked by the TLC judge; traces are distinct TLC "
+                "values (elements of sets); counted as non-trivial: prepareMaster, find, storeLastData and decodeLastData calls "
+                "(message selection and clock steps are not counted)",
         "samples": [{"lines": render_lines(r["c"]["def"]), "ops": [render_op(r["c"]["def"], op) for op in r["c"]["ops"]][:10],
                      "events": r["ev"][:10]} for r in first],
         "cases": ncase, "operations": nops, "families": shards, "records_rejected": nbad,
